@@ -278,6 +278,7 @@ Theorem transform_blocks im o im' :
 Proof.
   intros Hsrc Hnn. unfold transform.
   destruct (request_workspace im o) as [e|p] eqn:Ep; [discriminate|].
+  destruct (negb (quant_ok im)); [discriminate|].
   destruct (xo_gray o && negb (gray_ok im)) eqn:Eg; [discriminate|].
   intros H. injection H as <-. exists p. split; [reflexivity|].
   cbn [i_w i_h i_comps]. split; [reflexivity|]. split; [reflexivity|].
@@ -341,9 +342,9 @@ Qed.
 (* ------------------------------------------------------------ non-vacuity *)
 (* 4:2:0, 40 x 29 pixels: partial iMCUs on both edges (5x4 / 3x2 / 3x2 blocks) *)
 Definition ex_comp2 (hs vs wb hb s : Z) : comp :=
-  mkcomp hs vs wb hb (map (fun k => Z.of_nat k + 1) (seq 0 64)) (fun x y => ex_blk (s + 7 * x + 100 * y)).
+  mkcomp hs vs wb hb 0 (map (fun k => Z.of_nat k + 1) (seq 0 64)) (fun x y => ex_blk (s + 7 * x + 100 * y)).
 Definition ex_image2 : image :=
-  mkimage 40 29 3 [ex_comp2 2 2 5 4 0; ex_comp2 1 1 3 2 500; ex_comp2 1 1 3 2 900].
+  mkimage 40 29 3 [map (fun k => Z.of_nat k + 1) (seq 0 64)] [ex_comp2 2 2 5 4 0; ex_comp2 1 1 3 2 500; ex_comp2 1 1 3 2 900].
 (* rot90, trim, crop 8x24+16+0 of the rotated (29 x 40) image *)
 Definition ex_opts2 : xopts :=
   mkxopts XRot90 false true false (Some (mkcrop 8 true 24 true 16 OPos 0 OPos)) false.
@@ -361,7 +362,8 @@ Lemma ex_image2_transforms :
               map (fun c => (c_hs c, c_vs c, c_wb c, c_hb c)) (i_comps im') = [(2, 2, 1, 3); (1, 1, 1, 2); (1, 1, 1, 2)].
 Proof.
   assert (Hp : request_workspace ex_image2 ex_opts2 = inr (mkplan 3 8 24 16 16 1 0)) by (vm_compute; reflexivity).
-  unfold transform. rewrite Hp. cbn [ex_opts2 xo_gray andb].
+  assert (Hq : quant_ok ex_image2 = true) by (vm_compute; reflexivity).
+  unfold transform. rewrite Hp, Hq. cbn [negb ex_opts2 xo_gray andb].
   eexists. split; [reflexivity|]. cbn [i_w i_h i_comps p_ow p_oh]. split; [reflexivity|]. split; [reflexivity|].
   vm_compute. reflexivity.
 Qed.
@@ -377,3 +379,17 @@ Proof. vm_compute. repeat split. Qed.
 (* the geometry hypotheses of the plane theorem are satisfiable with crop and partial iMCUs *)
 Lemma ex_geom : geom_ok (mkgeom 2 2 2 3 5 40 29 2 2 1 0) /\ inplace_ok (mkgeom 2 2 3 4 5 40 29 2 2 1 0).
 Proof. vm_compute. repeat split; congruence. Qed.
+
+(* slot 0 redefined between the scans: component 0 latched the old table -> refused, any op *)
+Definition ex_image3 : image :=
+  mkimage 40 29 3 [map (fun k => Z.of_nat k + 10) (seq 0 64)]
+          [ex_comp2 2 2 5 4 0;
+           mkcomp 1 1 3 2 0 (map (fun k => Z.of_nat k + 10) (seq 0 64)) (fun x y => ex_blk (500 + x + y));
+           mkcomp 1 1 3 2 0 (map (fun k => Z.of_nat k + 10) (seq 0 64)) (fun x y => ex_blk (900 + x + y))].
+Lemma ex_image3_refused op : transform ex_image3 (plain op) = inl EQuantReuse.
+Proof.
+  assert (Hq : quant_ok ex_image3 = false) by (vm_compute; reflexivity).
+  destruct (request_workspace ex_image3 (plain op)) as [e|p] eqn:Ep.
+  - exfalso. destruct op; vm_compute in Ep; discriminate.
+  - apply (transform_refuses_reuse _ _ p Ep Hq).
+Qed.
